@@ -281,6 +281,16 @@ fn main() {
     });
     sink.merge(s2);
 
+    // (2b) inner lists with many elements (255 / 256 / 257 / 1000 / 4000 names, protocols, filters)
+    let many = cat::extensions_many();
+    let s2b = par_run(run.threads, many.len(), |i, sink| {
+        check_single(&many[i].buf, sink);
+        let mut cut = many[i].buf.clone();
+        cut.pop();
+        check_single(&cut, sink);
+    });
+    sink.merge(s2b);
+
     // (3) every content string over a small alphabet for each known type (lying inner lengths)
     let a = Alpha::new(&[&[0x00, 0x01, 0x02, 0x03, 0xff], &[0x00, 0x01, 0x02, 0x03, 0x04, 0x05, 0xff]], &[0x00, 0x01, 0x02, 0x03, 0xff]);
     let n = run.tier.pick(6, 8);
@@ -347,6 +357,7 @@ fn main() {
             }
         }
     }
+    lists.extend(cat::extension_lists_many());
     let nlists = lists.len();
     let s4 = par_run(run.threads, lists.len(), |i, sink| {
         let dd = if lists[i].lens.len() <= 8 { 1 } else { 0 };
@@ -371,7 +382,7 @@ fn main() {
     cov.insert("lists".into(), json!(nlists));
     cov.insert("list_element_catalogue".into(), json!(nelem));
     cov.insert("rule".into(), json!(format!(
-        "all 65536 extension types x {} generic contents through the 3 dispatchers, parse_tls_extension_unknown and the 16 tag-specific parsers; {} well-formed encodings of the 26 known types x every combination of <= {} deviations; every content string of length <= {} over a 5-7 letter positional alphabet for each known type, 2 RFC 8701 GREASE values, one mask-only GREASE look-alike and one unassigned type; {} lists of <= {} extensions x single deviations through the 3 list parsers. Oracles: strict reference decoder keyed by IANA type, tag == wire type, pairwise agreement of dispatchers, tag parsers accept exactly their own type and agree with the generic parser. Non-trivial: not cut inside the 4-byte header",
+        "all 65536 extension types x {} generic contents through the 3 dispatchers, parse_tls_extension_unknown and the 16 tag-specific parsers; {} well-formed encodings of the 26 known types x every combination of <= {} deviations; every content string of length <= {} over a 5-7 letter positional alphabet for each known type, 2 RFC 8701 GREASE values, one mask-only GREASE look-alike and one unassigned type; {} lists of <= {} extensions x single deviations, plus lists of 255 / 256 / 257 / 1000 / 4000 / 16383 extensions and inner lists of 255..4000 elements, through the 3 list parsers. Oracles: strict reference decoder keyed by IANA type, tag == wire type, pairwise agreement of dispatchers, tag parsers accept exactly their own type and agree with the generic parser. Non-trivial: not cut inside the 4-byte header",
         contents.len(), nknown, d, n, nlists, k)));
     let code = run.finish(
         &sink,
